@@ -8,6 +8,8 @@ import (
 	"go/types"
 	"sort"
 	"strings"
+
+	"golang.org/x/tools/go/packages"
 )
 
 // Rules about the type algebra and the checker: EQ-FIELDS (structural comparison is field-by-field and complete),
@@ -272,6 +274,7 @@ func ruleEqFields(c *Ctx) {
 		})
 		c.R.Check(okT, "val.Equals", "types compared before payloads", fd.Pos(), "`if !types.Equals(x.Type, y.Type) { return false }`", "payloads are reinterpreted without first requiring equal types")
 	}
+	c.idxOK()
 }
 
 func stripCall(c *Ctx, e ast.Expr, name string) ast.Expr {
@@ -1119,4 +1122,133 @@ func ruleKey1(c *Ctx) {
 	}
 	sorted := len(c.callsTo(&ast.BlockStmt{List: obj.Body}, "sort.Slice", "sort.SliceStable", "sort.Strings", "sort.Sort")) > 0
 	c.R.Check(sorted, "types.stringify", "object fields rendered in canonical order", obj.Pos(), "fields are sorted before rendering", "object fields are rendered in declaration order although types.Equals ignores field order: equal parameter types give different overload keys")
+}
+
+// idxOK (part of EQ-FIELDS): ObjTy.Index is the name -> position table of an object type. A single-value read m[k] of a
+// map[string]int yields 0 for an absent name, i.e. "found at position 0"; every read must therefore be in comma-ok form,
+// or be control-dependent on a successful lookup of the same name in the same object (GetField / comma-ok), or use a name
+// taken from the same object's own field list.
+func (c *Ctx) idxOK() {
+	isIndexField := func(e ast.Expr) (base ast.Expr, ok bool) {
+		se, isSel := unparen(e).(*ast.SelectorExpr)
+		if !isSel || se.Sel.Name != "Index" {
+			return nil, false
+		}
+		v, isVar := c.objOf(se.Sel).(*types.Var)
+		if !isVar || !v.IsField() || typeStr(v.Type()) != "map[string]int" || v.Pkg() == nil || short(v.Pkg().Path()) != "types" {
+			return nil, false
+		}
+		return se.X, true
+	}
+	n := 0
+	c.eachFuncDecl(func(pk *packages.Package, fd *ast.FuncDecl) {
+		if fd.Body == nil {
+			return
+		}
+		name := fnName(short(pk.PkgPath), fd)
+		// comma-ok reads and writes
+		commaOK := map[*ast.IndexExpr]bool{}
+		written := map[*ast.IndexExpr]bool{}
+		type lookup struct {
+			okObj     types.Object
+			base, key string
+		}
+		var lookups []lookup
+		ast.Inspect(fd.Body, func(x ast.Node) bool {
+			as, ok := x.(*ast.AssignStmt)
+			if !ok {
+				return true
+			}
+			for _, l := range as.Lhs {
+				if ie, ok := unparen(l).(*ast.IndexExpr); ok {
+					written[ie] = true
+				}
+			}
+			if len(as.Lhs) == 2 && len(as.Rhs) == 1 {
+				okID, _ := as.Lhs[1].(*ast.Ident)
+				switch r := unparen(as.Rhs[0]).(type) {
+				case *ast.IndexExpr:
+					if b, is := isIndexField(r.X); is {
+						commaOK[r] = true
+						if okID != nil && okID.Name != "_" {
+							lookups = append(lookups, lookup{c.objOf(okID), sx(unparen(b)), sx(unparen(r.Index))})
+						}
+					}
+				case *ast.CallExpr:
+					if nm := c.calleeName(r); (nm == "types.ObjTy.GetField" || nm == "val.ObjVal.Get") && len(r.Args) == 1 && okID != nil && okID.Name != "_" {
+						if se, ok := r.Fun.(*ast.SelectorExpr); ok {
+							lookups = append(lookups, lookup{c.objOf(okID), sx(unparen(se.X)), sx(unparen(r.Args[0]))})
+						}
+					}
+				}
+			}
+			return true
+		})
+		var g *FnCFG
+		ast.Inspect(fd.Body, func(x ast.Node) bool {
+			ie, ok := x.(*ast.IndexExpr)
+			if !ok {
+				return true
+			}
+			base, is := isIndexField(ie.X)
+			if !is {
+				return true
+			}
+			n++
+			desc := "read " + src(ie)
+			switch {
+			case written[ie]:
+				c.R.OKTrivial(name, "write "+src(ie), ie.Pos(), "table construction")
+				return true
+			case commaOK[ie]:
+				c.R.OK(name, desc, ie.Pos(), "comma-ok form: absence is distinguished from position 0")
+				return true
+			}
+			bs, ks := sx(unparen(base)), sx(unparen(ie.Index))
+			// own field name: <base>.Fields[i].Name
+			if se, ok := unparen(ie.Index).(*ast.SelectorExpr); ok && se.Sel.Name == "Name" {
+				if ix, ok := unparen(se.X).(*ast.IndexExpr); ok {
+					if fs, ok := unparen(ix.X).(*ast.SelectorExpr); ok && fs.Sel.Name == "Fields" && sx(unparen(fs.X)) == bs {
+						c.R.OK(name, desc, ie.Pos(), "the name is taken from the same object's own field list, so it is present")
+						return true
+					}
+				}
+			}
+			if g == nil {
+				g = c.buildCFG(fd.Body)
+			}
+			okEst := false
+			for _, pc := range g.condsAt(ie) {
+				if !pc.pos {
+					continue
+				}
+				for _, cj := range andParts(pc.e) {
+					id, isID := unparen(cj).(*ast.Ident)
+					if !isID {
+						continue
+					}
+					for _, lk := range lookups {
+						if lk.okObj == c.objOf(id) && lk.base == bs && lk.key == ks {
+							okEst = true
+						}
+					}
+				}
+			}
+			if okEst {
+				c.R.OK(name, desc, ie.Pos(), "control-dependent on a successful lookup of the same name in the same object")
+			} else {
+				c.R.Bad(name, desc, ie.Pos(), "single-value read of the name->position table: for a name the object does not have it yields 0, i.e. 'found at position 0' — object types whose first fields differ in name are then treated as having the same layout / field (comma-ok form or a preceding successful GetField of the same name is required)")
+			}
+			return true
+		})
+	})
+	c.R.Check(n >= 4, "types", "ObjTy.Index reads found", token.NoPos, "the name->position table is read in Obj, GetField, ObjVal.Get/Put and Check", "fewer than 4 reads of ObjTy.Index found: the scan is not seeing the table")
+}
+
+func andParts(e ast.Expr) []ast.Expr {
+	e = unparen(e)
+	if b, ok := e.(*ast.BinaryExpr); ok && b.Op == token.LAND {
+		return append(andParts(b.X), andParts(b.Y)...)
+	}
+	return []ast.Expr{e}
 }
